@@ -448,13 +448,17 @@ def check_reader_rejections(ctx, facts, rid="C07.6"):
         rv = st["rv"]
         if not (rv["k"] == "bin" and str(rv["op"]) in ("Lt", "Le", "Gt", "Ge", "Eq", "Ne")):
             continue
+        # comparisons the compiler emits for an index bounds check (`assert(idx < len)`) are not the function's own tests
+        t_ = hb.term(site.bb)
+        if t_ and t_["k"] == "assert" and op_local(t_.get("cond") or {}) == st["place"]["l"] and not st["place"]["p"]:
+            continue
         ea, eb = strip_refs(expr(hb, rv["a"])), strip_refs(expr(hb, rv["b"]))
         sa, sb = show(ea, 8), show(eb, 8)
         ca, cb = fmtfeat.const_eval(ea), fmtfeat.const_eval(eb)
         cls = None
         if ca is not None and cb is not None:
             cls = "constants"
-        elif (cb is not None or ca is not None) and re.search(r"BitOr\(.*\[0\], Shl\(.*\[1\], 8\)\)", sa if cb is not None else sb):
+        elif (cb is not None or ca is not None) and re.search(r"BitOr\(.*\[0\], Shl\(.*\[1\], 8\)\)|from_le_bytes\(\(?.*\[0\], .*\[1\]\)?\)", sa if cb is not None else sb):
             cls = "header length against a constant"
         elif str(rv["op"]) in ("Eq", "Ne") and ("checksum" in sa and "checksum" in sb):
             cls = "checksum"
